@@ -1761,8 +1761,8 @@ def tuplify_arg(kind, i, a):
 
 def make_cases(tier, seed, part="all"):
     rnd0 = random.Random(seed * 7919 + 11)
-    nprog = {"quick": 600, "thorough": 5000}[tier]
-    nprobe = {"quick": 40, "thorough": 300}[tier]
+    nprog = {"quick": 450, "thorough": 3000}[tier]
+    nprobe = {"quick": 30, "thorough": 200}[tier]
     progs = []
     if part in ("all", "corpus"):
         for p in corpus_programs():
@@ -1847,6 +1847,80 @@ def judge(c, case, impl, spec, mech):
     return "agree"
 
 
+# ------------------------------------------------------------------------------------------------
+# shrinking a failing program (statements are removed while the same kind of failure persists)
+# ------------------------------------------------------------------------------------------------
+BODY_FIELDS = {"block": [1], "if": [2, 3], "cfor": [3], "rfor": [3], "try": [1, 2]}
+
+
+def stmt_lists(prog):
+    """every statement list of the program, as (getter path) objects that can be mutated in place"""
+    out = []
+
+    def walk(body):
+        out.append(body)
+        for s in body:
+            for f in BODY_FIELDS.get(s[0], []):
+                walk(s[f])
+    for seg in prog["segments"]:
+        walk(seg)
+    for name, d in prog.get("defs", {}).items():
+        walk(d[1])
+    return out
+
+
+def copy_prog(x):
+    if isinstance(x, dict):
+        return {k: copy_prog(v) for k, v in x.items()}
+    if isinstance(x, list):
+        return [copy_prog(v) for v in x]
+    if isinstance(x, tuple):
+        return tuple(copy_prog(v) for v in x)
+    return x
+
+
+def shrink(case, tag, hbin, sbin, budget=120):
+    """greedy one-statement-at-a-time reduction; returns a case with the same verdict tag"""
+    best = case
+
+    def verdict(prog):
+        try:
+            script = render(prog, best["opt"])
+            line, names = lower(prog, best["opt"])
+        except Exception:
+            return None, None
+        impl = run_impl(hbin, [script], BULK_ENV)[0]
+        spec = run_model(sbin, [line])[0]
+        cand = dict(best, prog=prog, script=script, ops=line, names=names)
+        scratch = vlib.Check("C11", "shrink", 0)
+        return judge(scratch, cand, impl, spec, None), cand
+
+    progress = True
+    while progress and budget > 0:
+        progress = False
+        nlists = len(stmt_lists(best["prog"]))
+        for li in range(nlists):
+            i = 0
+            while budget > 0:
+                lists = stmt_lists(best["prog"])
+                if li >= len(lists) or i >= len(lists[li]):
+                    break
+                prog = copy_prog(best["prog"])
+                l2 = stmt_lists(prog)[li]
+                del l2[i]
+                if not l2 and li > 0:
+                    i += 1
+                    continue
+                budget -= 1
+                t, cand = verdict(prog)
+                if t == tag:
+                    best = cand
+                    progress = True
+                else:
+                    i += 1
+    return best
+
+
 def nontrivial(case):
     return case["script"].count("checkpoint(") >= 2 and ("Tracked(" in case["script"] or "make_" in case["script"])
 
@@ -1899,9 +1973,25 @@ def check(tier, seed):
                 c.extra["generated_programs_skipped"] = "the regression corpus already fails on %d programs" % len(probe.failures)
                 break
     seen = set()
+    shrunk = False
     for case, i, s, m in zip(cases, impl, spec, mech):
         c.cov["evaluations"] += 1
+        nfail = len(c.failures)
         tag = judge(c, case, i, s, m)
+        if len(c.failures) > nfail and not shrunk:
+            # the first failing input is reduced so that the replay shows a small script
+            shrunk = True
+            try:
+                small = shrink(case, tag, hbin, sbin)
+                if small is not case:
+                    f = c.failures.pop()
+                    scratch = vlib.Check("C11", "shrink", 0)
+                    judge(scratch, small, run_impl(hbin, [small["script"]], BULK_ENV)[0], run_model(sbin, [small["ops"]])[0], None)
+                    f2 = scratch.failures[0]
+                    f2["case"]["reduced_from"] = f["case"]["script"]
+                    c.failures.append(f2)
+            except Exception as ex:       # shrinking is a convenience; the unreduced input stays
+                vlib.log("shrink failed: %r" % ex)
         c.dist["origin:" + case["origin"]] = c.dist.get("origin:" + case["origin"], 0) + 1
         c.dist["verdict:" + tag] = c.dist.get("verdict:" + tag, 0) + 1
         c.dist["parser:" + ("optimised" if case["opt"] else "unoptimised")] = c.dist.get("parser:" + ("optimised" if case["opt"] else "unoptimised"), 0) + 1
